@@ -512,7 +512,9 @@ def install(mdl, production_names=None):
     ov(r'^str_concat::concat$|^concat::<str>$|^concat$', str_concat)
 
     def is_keyword(it, ci, a, d):
-        return gs(it).fresh('is_kw', 'Bool')
+        b = gs(it).fresh('is_kw', 'Bool')
+        it.env.setdefault('kw_bools', []).append(b)
+        return b
     ov(r'^utils::is_keyword$|^is_keyword$', is_keyword)
 
     def abs_str_eq(it, ci, a, d):
@@ -540,7 +542,7 @@ def install(mdl, production_names=None):
 
     def cellref_deref(it, ci, a, d):
         return deref(a[0]).fields[0]
-    ov(r'^<Ref(Mut)?<.*> as Deref(Mut)?>::deref(_mut)?$', cellref_deref)
+    ov(r'^<(std::cell::|core::cell::)?Ref(Mut)?<.*> as Deref(Mut)?>::deref(_mut)?$', cellref_deref)
 
     def packrat_clear(it, ci, a, d):
         deref(a[0]).data['entries'] = 0
